@@ -369,6 +369,11 @@ func stripTsig(msg []byte) ([]byte, *TSIG, error) {
 			return nil, nil, err
 		}
 		if extra.Header().Rrtype == TypeTSIG {
+			if i != int(dh.Arcount)-1 {
+				// RFC 8945 5.2: the TSIG is the last record of the message. Msg.IsTsig, which
+				// the handler and the MAC chaining use, looks at the last record only.
+				return nil, nil, ErrSig
+			}
 			rr = extra.(*TSIG)
 			// Adjust Arcount.
 			arcount := binary.BigEndian.Uint16(msg[10:])
